@@ -265,7 +265,12 @@ class Units:
             b = self.u(e.value)
             if b == LABS and e.attr in ('step',):
                 return DIFF
-            if b == LABS and e.attr in ('start', 'stop'):
+            if b == LABS and e.attr == 'stop':
+                # range(2, 41, 2) and range(2, 42, 2) are the same configuration list with different .stop: the end point of a
+                # range is not a function of its elements
+                self.bad(e, 'the representation dependent end point `.stop` of a configuration range is used (equal lists with different .stop give different results)')
+                return ABS
+            if b == LABS and e.attr == 'start':
                 return ABS
             if e.attr == 'idl':
                 return 'DICT[LABS]'
@@ -459,8 +464,7 @@ class Units:
             pass
 
 
-def d4_units(ctx, obs):
-    rule = 'C03-D4'
+def d4_units(ctx, obs, rule='C03-D4'):
     total = 0
     before = len([o for o in ctx.obs if o.rule == rule and o.verdict == 'VIOLATED'])
     # _expand_deltas(deltas, idx, shape, gapsize)
@@ -468,23 +472,23 @@ def d4_units(ctx, obs):
     p = [a.arg for a in f.args.args]
     if len(p) != 4:
         raise Unrecognised('_expand_deltas signature changed')
-    u = Units(ctx, obs, f, {p[0]: NUM, p[1]: LABS, p[2]: COUNT, p[3]: DIFF})
+    u = Units(ctx, obs, f, {p[0]: NUM, p[1]: LABS, p[2]: COUNT, p[3]: DIFF}, rule=rule)
     u.run_stmts(f.body)
     total += u.n
     # _determine_gap(o, e_content, e_name)
     f = obs.func('_determine_gap')
-    u = Units(ctx, obs, f, {})
+    u = Units(ctx, obs, f, {}, rule=rule)
     u.run_stmts(f.body)
     total += u.n
     # gamma_method: the replica-length / window part
     f = obs.func('Obs.gamma_method')
-    u = Units(ctx, obs, f, {'gapsize': DIFF})
+    u = Units(ctx, obs, f, {'gapsize': DIFF}, rule=rule)
     u.run_stmts([s for s in f.body if isinstance(s, ast.For)])
     total += u.n
     # _calc_gamma(self, deltas, idx, shape, w_max, fft, gapsize)
     f = obs.func('Obs._calc_gamma')
     p = [a.arg for a in f.args.args]
-    u = Units(ctx, obs, f, {p[1]: NUM, p[2]: LABS, p[3]: COUNT, p[4]: COUNT, p[6]: DIFF})
+    u = Units(ctx, obs, f, {p[1]: NUM, p[2]: LABS, p[3]: COUNT, p[4]: COUNT, p[6]: DIFF}, rule=rule)
     u.run_stmts(f.body)
     total += u.n
     after = len([o for o in ctx.obs if o.rule == rule and o.verdict == 'VIOLATED'])
@@ -671,8 +675,9 @@ def run(ctx):
     ctx.guarded('C03-D4', 'obs.py@units', d4_units, ctx, obs)
     ctx.guarded('C03-D5', 'obs.py@read-set', d5_readset, ctx, obs)
     ctx.guarded('C03-D6', 'obs.py@bounds', d6_bounds, ctx, obs)
-    ctx.rule('C03-D8', 'guards on FFT-computed quantities are inequalities')
+    ctx.rule('C03-D8', 'FFT path = direct path: guards on FFT-computed quantities are inequalities; padding, lag range and pairing of _calc_gamma (shared analysis with C02-D4)')
     ctx.guarded('C03-D8', 'obs.py@fft-guards', d8_fft_guards, ctx, obs)
+    ctx.guarded('C03-D8', 'obs.py:Obs._calc_gamma@fft-vs-direct', C02.calc_gamma, ctx, obs, 'C03-D8')
     from .. import unusedparams, leakedloop
     ctx.rule('C03-D7', 'every accepted option is read (no silently ignored parameter); no loop variable read after its loop')
     for mn_ in ('obs',):
